@@ -1,13 +1,14 @@
 package main
 
 // Concretisation search: when a failed obligation comes back without a model
-// (unknown / timeout, typical for clauses with quantifiers), fix the
-// function's inputs to small random concrete values and ask again. The query
-// is then essentially ground; a "sat" is a model like any other and is
-// replayed against the real code.
+// (unknown / timeout, typical for clauses with quantifiers or recursive spec
+// functions), fix the function's inputs to small random concrete values and
+// ask again. The query is then essentially ground; a "sat" is a model like
+// any other and is replayed against the real code.
 
 import (
 	"fmt"
+	"go/types"
 	"math/big"
 	"math/rand"
 	"os"
@@ -17,85 +18,173 @@ import (
 
 var interesting = []string{"0", "1", "2", "3", "4", "5", "7", "8", "15", "16", "17", "31", "32", "63", "64", "127", "128", "129", "255", "256", "257", "1000", "65535", "65536", "16777215", "16777216", "2147483647", "2147483648", "4294967295", "4294967296", "-1", "-2", "-128", "-129"}
 
-func (c *FnCtx) concreteAssignment(rng *rand.Rand) []string {
-	var as []string
-	nextRef := int64(11)
-	for _, p := range c.replayParams {
-		switch p.V.K {
-		case kInt:
-			ii, ok := intInfoOf(p.T)
-			v := interesting[rng.Intn(len(interesting))]
-			if n, _ := new(big.Int).SetString(v, 10); ok && ii.bits > 0 && n != nil {
-				if n.Cmp(ii.min()) < 0 || n.Cmp(ii.max()) > 0 {
-					v = "1"
+const concAlphabet = "ab*?!.:0"
+
+// gen produces equalities fixing value v (of type t) to random small data.
+type concGen struct {
+	b       *rb
+	rng     *rand.Rand
+	nextRef int64
+	as      []string
+	strPool []string
+	strTerms [][2]string // (term, content) of every string fixed so far
+}
+
+func (g *concGen) add(a string) { g.as = append(g.as, a) }
+
+func (g *concGen) randString() string {
+	// reuse earlier strings often: equality between strings is what matters
+	if len(g.strPool) > 0 && g.rng.Intn(10) < 7 {
+		return g.strPool[g.rng.Intn(len(g.strPool))]
+	}
+	n := g.rng.Intn(4)
+	var sb strings.Builder
+	for i := 0; i < n; i++ {
+		sb.WriteByte(concAlphabet[g.rng.Intn(len(concAlphabet))])
+	}
+	g.strPool = append(g.strPool, sb.String())
+	return sb.String()
+}
+
+func (g *concGen) gen(v Val, t types.Type, depth int) {
+	if depth > 4 {
+		return
+	}
+	c := g.b.c
+	switch v.K {
+	case kInt:
+		ii, ok := intInfoOf(t)
+		s := interesting[g.rng.Intn(len(interesting))]
+		n, _ := new(big.Int).SetString(s, 10)
+		if ok && ii.bits > 0 && (n.Cmp(ii.min()) < 0 || n.Cmp(ii.max()) > 0) {
+			n = big.NewInt(1)
+		}
+		if ok && ii.bits > 0 && g.rng.Intn(2) == 0 {
+			w := 1 + g.rng.Intn(int(ii.bits))
+			if ii.signed && w == int(ii.bits) {
+				w--
+			}
+			n = new(big.Int).Rand(g.rng, pow2(uint(w)))
+		}
+		if depth > 0 && ok && ii.bits == 8 {
+			// bytes inside buffers: favour a small alphabet and boundary values
+			switch g.rng.Intn(4) {
+			case 0:
+				n = big.NewInt(0)
+			case 1:
+				n = big.NewInt(255)
+			case 2:
+				n = big.NewInt(int64(concAlphabet[g.rng.Intn(len(concAlphabet))]))
+			}
+		}
+		g.add(eq(v.S, bigNum(n)))
+	case kBool:
+		if g.rng.Intn(2) == 0 {
+			g.add(v.S)
+		} else {
+			g.add(not(v.S))
+		}
+	case kStr:
+		s := g.randString()
+		g.strTerms = append(g.strTerms, [2]string{v.S, s})
+		g.add(eq(sx("slen", v.S), num(int64(len(s)))))
+		for i := 0; i < len(s); i++ {
+			g.add(eq(sx("sat", v.S, num(int64(i))), num(int64(s[i]))))
+		}
+	case kSlice:
+		if g.rng.Intn(10) == 0 {
+			g.add(eq(v.Ref, "0"))
+			g.add(eq(v.Len, "0"))
+			g.add(eq(v.Cap, "0"))
+			g.add(eq(v.Off, "0"))
+			return
+		}
+		el := v.Root
+		maxLen := 7
+		if kindOf(el) == kStruct || kindOf(el) == kStr {
+			maxLen = 4
+		}
+		ln := int64(g.rng.Intn(maxLen))
+		extra := int64([]int{0, 0, 1, 4}[g.rng.Intn(4)])
+		off := int64(g.rng.Intn(2))
+		ref := g.nextRef
+		g.nextRef++
+		g.add(eq(v.Ref, num(ref)))
+		g.add(eq(v.Off, num(off)))
+		g.add(eq(v.Len, num(ln)))
+		g.add(eq(v.Cap, num(ln+extra)))
+		for i := int64(0); i < ln+extra; i++ {
+			idx := num(off + i)
+			switch kindOf(el) {
+			case kInt, kBool, kStr:
+				if ct := g.b.cell(el, nil, sortOf(el), v.Ref, idx); ct != "" {
+					g.gen(fromTerm(el, ct), el, depth+1)
+				}
+			case kStruct:
+				p := Val{K: kPtr, T: types.NewPointer(el), Ref: v.Ref, Idx: idx, Root: el}
+				g.genPointee(p, el, depth+1)
+			}
+		}
+	case kStruct:
+		st := mustStruct(t)
+		for i, f := range v.Fields {
+			g.gen(f, st.Field(i).Type(), depth+1)
+		}
+	case kPtr:
+		if g.rng.Intn(8) == 0 && !c.nonNil[v.Ref] {
+			g.add(eq(v.Ref, "0"))
+			return
+		}
+		g.add(eq(v.Ref, num(g.nextRef)))
+		g.nextRef++
+		g.genPointee(v, pointeeOfVal(v), depth+1)
+	}
+}
+
+func (g *concGen) genPointee(p Val, pt types.Type, depth int) {
+	if depth > 4 {
+		return
+	}
+	switch u := pt.Underlying().(type) {
+	case *types.Array:
+		el := u.Elem()
+		if kindOf(el) != kInt && kindOf(el) != kBool {
+			return
+		}
+		n := u.Len()
+		if n > 64 {
+			n = 64
+		}
+		for i := int64(0); i < n; i++ {
+			if ct := g.b.cell(el, nil, sortOf(el), p.Ref, add(p.Idx, num(i))); ct != "" {
+				g.gen(fromTerm(el, ct), el, depth+1)
+			}
+		}
+	case *types.Struct:
+		for i := 0; i < u.NumFields(); i++ {
+			ft := u.Field(i).Type()
+			fp := g.b.c.fieldAddr(Val{K: kPtr, T: types.NewPointer(pt), Ref: p.Ref, Idx: p.Idx, Root: p.Root, Path: p.Path}, i, types.NewPointer(ft))
+			switch ft.Underlying().(type) {
+			case *types.Array, *types.Struct:
+				g.genPointee(fp, ft, depth+1)
+			default:
+				switch kindOf(ft) {
+				case kFunc, kIface, kMap, kOpaque:
+					continue
+				}
+				if ct := g.b.cell(fp.Root, fp.Path, sortOf(ft), fp.Ref, fp.Idx); ct != "" {
+					g.gen(fromTerm(ft, ct), ft, depth+1)
 				}
 			}
-			n, _ := new(big.Int).SetString(v, 10)
-			if ok && ii.bits > 0 && rng.Intn(2) == 0 {
-				// random bit pattern of a random width up to the type's
-				w := 1 + rng.Intn(int(ii.bits))
-				if ii.signed && w == int(ii.bits) {
-					w--
-				}
-				n = new(big.Int).Rand(rng, pow2(uint(w)))
-			}
-			as = append(as, eq(p.V.S, bigNum(n)))
-		case kBool:
-			if rng.Intn(2) == 0 {
-				as = append(as, p.V.S)
-			} else {
-				as = append(as, not(p.V.S))
-			}
-		case kStr:
-			n := rng.Intn(5)
-			as = append(as, eq(sx("slen", p.V.S), num(int64(n))))
-			for i := 0; i < n; i++ {
-				as = append(as, eq(sx("sat", p.V.S, num(int64(i))), num(int64("ab*?!.:0"[rng.Intn(8)]))))
-			}
-		case kSlice:
-			ln := int64(rng.Intn(7))
-			extra := int64([]int{0, 0, 1, 4, 16}[rng.Intn(5)])
-			off := int64(rng.Intn(2))
-			if rng.Intn(8) == 0 {
-				as = append(as, eq(p.V.Ref, "0"), eq(p.V.Len, "0"), eq(p.V.Cap, "0"), eq(p.V.Off, "0"))
-				continue
-			}
-			ref := nextRef
-			nextRef++
-			as = append(as, eq(p.V.Ref, num(ref)), eq(p.V.Off, num(off)), eq(p.V.Len, num(ln)), eq(p.V.Cap, num(ln+extra)))
-			if kindOf(p.V.Root) == kInt {
-				key := heapKey(p.V.Root, nil)
-				if h := c.entryHeap(key); h != "" {
-					ii, _ := intInfoOf(p.V.Root)
-					for i := int64(0); i < ln+extra; i++ {
-						var v int64
-						switch rng.Intn(4) {
-						case 0:
-							v = 0
-						case 1:
-							v = int64(rng.Intn(256))
-						case 2:
-							v = 255
-						default:
-							v = int64(rng.Intn(4))
-						}
-						if ii.bits > 8 && rng.Intn(3) == 0 {
-							v = rng.Int63n(1 << 31)
-						}
-						as = append(as, eq(sx("select", sx("select", h, p.V.Ref), num(off+i)), num(v)))
-					}
-				}
-			}
-		case kPtr:
-			if rng.Intn(6) == 0 && !c.nonNil[p.V.Ref] {
-				as = append(as, eq(p.V.Ref, "0"))
-			} else {
-				as = append(as, eq(p.V.Ref, num(nextRef)))
-				nextRef++
+		}
+	default:
+		switch kindOf(pt) {
+		case kInt, kBool, kStr, kSlice, kPtr:
+			if ct := g.b.cell(p.Root, p.Path, sortOf(pt), p.Ref, p.Idx); ct != "" {
+				g.gen(fromTerm(pt, ct), pt, depth+1)
 			}
 		}
 	}
-	return as
 }
 
 // concretize tries up to n random assignments; it returns the pins of the
@@ -105,15 +194,18 @@ func concretize(o *Obligation, seed int64, n int, dir string) ([]string, bool) {
 	if c == nil || o.queryFile == "" || len(c.replayParams) == 0 {
 		return nil, false
 	}
-	b, err := os.ReadFile(o.queryFile)
+	qb, err := os.ReadFile(o.queryFile)
 	if err != nil {
 		return nil, false
 	}
-	txt := string(b)
+	txt := string(qb)
 	i := strings.LastIndex(txt, "(check-sat)")
 	if i < 0 {
 		return nil, false
 	}
+	saved := c.quiet
+	c.quiet = true
+	defer func() { c.quiet = saved }()
 	type res struct {
 		k    int
 		pins []string
@@ -121,7 +213,31 @@ func concretize(o *Obligation, seed int64, n int, dir string) ([]string, bool) {
 	rng := rand.New(rand.NewSource(seed))
 	var cands [][]string
 	for k := 0; k < n; k++ {
-		cands = append(cands, c.concreteAssignment(rng))
+		b := &rb{c: c, seen: map[string]bool{}, query: qb}
+		if c.fn.Pkg != nil {
+			b.pkg = c.fn.Pkg.Pkg
+		}
+		g := &concGen{b: b, rng: rng, nextRef: 11}
+		func() {
+			defer func() { recover() }()
+			for _, p := range c.replayParams {
+				g.gen(p.V, p.T, 0)
+			}
+		}()
+		// strings are abstract values: make identity follow content
+		for x := 0; x < len(g.strTerms); x++ {
+			for y := x + 1; y < len(g.strTerms); y++ {
+				if g.strTerms[x][0] == g.strTerms[y][0] {
+					continue
+				}
+				if g.strTerms[x][1] == g.strTerms[y][1] {
+					g.add(eq(g.strTerms[x][0], g.strTerms[y][0]))
+				} else {
+					g.add(not(eq(g.strTerms[x][0], g.strTerms[y][0])))
+				}
+			}
+		}
+		cands = append(cands, g.as)
 	}
 	found := make(chan res, n)
 	var wg sync.WaitGroup
